@@ -515,3 +515,38 @@ def rule_r345(prog: Program, col: Collector) -> None:
     else:
         col.check(bool(clipped), init.where(), init.short, "one regret minimiser per internal node: sets of size <= min(limit, number of viable coalitions) - 1", construct="rm-count",
                   necessity="the internal nodes are the coalition sets with something left to reveal", rule="R5")
+
+
+def rule_r6_viability_filters(prog: Program, col: Collector) -> None:
+    """Sibling agreement: every place that drops the always-known coalitions (empty, singletons, grand) by size uses the sizes {0, 1, n}."""
+    col.rule("R6", "every size filter for non-viable coalitions in regret.py excludes exactly the sizes 0, 1 and number_of_players", 2)
+    sites = []
+    for ref in prog.all_functions():
+        if not ref.module.name.endswith(".regret"):
+            continue
+        ft = fterms(prog, ref)
+        seen = set()
+        for ev in ft.events:
+            for v in ev.data.values():
+                if not isinstance(v, tuple):
+                    continue
+                for t in subterms(v):
+                    if t[0] == "cmp" and t[1] in ("not in", "in") and is_call_to(t[2], "len") and t[3][0] in ("list", "tuple", "set") and t not in seen:
+                        seen.add(t)
+                        sites.append((ref, ev, t))
+    if len(sites) < 2:
+        raise AnalysisError(f"R6: expected the two size filters of regret.py (id map and node lookup), found {len(sites)}")
+
+    def norm(x):
+        if x[0] == "const":
+            return x[1]
+        if x in (("param", "number_of_players"), ("attr", SELF, "number_of_players")):
+            return "n"
+        return show(x)
+
+    for ref, ev, t in sites:
+        sizes = {norm(x) for x in t[3][1]}
+        col.check(sizes == {0, 1, "n"}, ref.where(ev.node), ref.short,
+                  f"non-viable sizes excluded: {sorted(map(str, sizes))} (must be 0, 1 and the number of players)", construct="viability-sizes",
+                  necessity="nodes are described by lists of coalitions in which the always-known coalitions are ignored (the package's own test requires it for singletons): "
+                            "a filter that misses the grand coalition maps it to player id -1, and the node lookup raises instead of returning a distribution")
